@@ -538,6 +538,7 @@ def rule_ow_selwrap(cx, rep, port):
     sp = p.func(mod, 'shallow_parse_input_query')
     stores = [n for n in walk_no_nested(sp) if isinstance(n, ast.Assign) and (dotted(n.targets[0]) or '') == 'query_context.select_expression']
     rep.require_count('select_expression stores', len(stores), 1, sp)
+    _embedded_verbatim(rep, p, mod, port)
     for st in stores:
         chain = []
         ok, why = _trace_select_text(p, mod, sp, st.value, st, chain, 0)
@@ -548,6 +549,36 @@ def rule_ow_selwrap(cx, rep, port):
             rep.violated(key, st, why)
         else:
             rep.undecided(key, st, why)
+
+
+def _embedded_verbatim(rep, p, mod, port):
+    """the code generator embeds the stored select fragment as it is: a generator that cuts or rewrites the fragment text on its way
+    into the template can strip the same wrapper"""
+    gen = p.func(mod, 'generate_main_loop_code', required=False)
+    if gen is None:
+        return
+    sites = [c for c in walk_no_nested(gen) if isinstance(c, ast.Call) and (call_name(c) or '') in ('embed_expression', 'embed_code', 'replace_all') and len(c.args) == 3 and isinstance(c.args[1], ast.Constant) and isinstance(c.args[1].value, str) and 'select_expression' in c.args[1].value]
+    for c in sites:
+        v = c.args[2]
+        key = 'embedding of the select fragment'
+        if (dotted(v) or '').endswith('select_expression'):
+            rep.holds(key, c, 'the stored fragment is embedded verbatim')
+            continue
+        cuts = []
+        seen = set()
+        work = [v]
+        while work:
+            e = work.pop()
+            for x in ast.walk(e):
+                if (isinstance(x, ast.Subscript) and isinstance(x.slice, ast.Slice)) or (isinstance(x, ast.Call) and isinstance(x.func, ast.Attribute) and x.func.attr in ('replace', 'strip', 'lstrip', 'rstrip', 'substring', 'substr', 'slice', 'removeprefix', 'removesuffix')) or (isinstance(x, ast.Call) and dotted(x.func) == 're.sub'):
+                    cuts.append(x)
+                if isinstance(x, ast.Name) and x.id not in seen:
+                    seen.add(x.id)
+                    work.extend(d.value for d in walk_no_nested(gen) if isinstance(d, ast.Assign) and any(x.id in _tnames(t) for t in d.targets))
+        if cuts:
+            rep.violated(key, c, 'the code generator rewrites the select fragment before embedding it (`{}`): the list display that makes `select *` / `a.*` evaluate to a fresh list can be stripped, so output records alias input rows'.format(node_text(cuts[0], 60)))
+        else:
+            rep.undecided(key, c, 'the embedded select fragment is `{}`, not the stored fragment'.format(node_text(v, 60)))
 
 
 def _trace_select_text(p, mod, sp, e, at, chain, depth):
